@@ -141,7 +141,11 @@ class AttributeValueFactory(object):
         elif enum is enums.Tags.CRYPTOGRAPHIC_DOMAIN_PARAMETERS:
             raise NotImplementedError()
         elif enum is enums.Tags.CERTIFICATE_TYPE:
-            raise NotImplementedError()
+            return primitives.Enumeration(
+                enums.CertificateType,
+                value=value,
+                tag=enums.Tags.CERTIFICATE_TYPE
+            )
         elif enum is enums.Tags.CERTIFICATE_LENGTH:
             return primitives.Integer(value, enums.Tags.CERTIFICATE_LENGTH)
         elif enum is enums.Tags.X_509_CERTIFICATE_IDENTIFIER:
